@@ -12,7 +12,7 @@ def run(ctx):
         "Coq models DSL/Compile.v (generated code), DSL/Exec.v (series.py run-time) tied to /repo by k_compile (structural) and k_seriescomp (exact values, exception classes)",
         "theorem C09_sound is stated for runs that do not exhaust fuel and for values on which the specification DSL/Interp.v is defined; termination of well-founded programs is not proved (examples by vm_compute)",
         "Hermitian shortcuts: validity (herm_low / herm_diag) is an explicit spec-level hypothesis of C09_sound; for the shipped main algorithm it is proved (C09_sound_main: scope without offdiag, diag commuting with the adjoint, complete zero test)",
-        "termination (stratified alg -> every request returns Ok) is NOT proved: DSL/Stratified.v only defines the decidable certificate, which both shipped algorithms pass by vm_compute",
+        "termination: C09_terminates (stratified alg -> no request run with fuel >= fuel_bound ends with OutOfFuel; both shipped algorithms are stratified by vm_compute); that the outcome is a value rather than a Python exception is not proved",
         "linear-operator mode: aslinearoperator is modelled as the identity on values (second cache table, del_ pops both); not exercised on real LinearOperators by the harness",
         "scope functions dereference a series argument only at the current index (as diag / offdiag of block_diagonalize do)",
     ]
